@@ -5,7 +5,8 @@
 (* kinds: "misc", "minlen", "maxlen", "minmw", "sect", "w2f", "novelorf", "variant"   *)
 (*        (b relaxes a: outA must be a subset of outB and every extra peptide must be *)
 (*        attributable to the relaxation), "restrict" (b is the restricted run:       *)
-(*        outB must be a subset of outA)                                              *)
+(*        outB must be a subset of outA), "same" (two runs of one input that must    *)
+(*        give the same set, e.g. thread counts under an injected timeout)            *)
 (* txs: the transcripts of the input (may be empty for inputs too large for the oracle) *)
 EXTENDS Peptides, TLC, Json, IOUtils
 Cases == JsonDeserialize(IOEnv.CASES_FILE)
@@ -40,14 +41,21 @@ TxOf(r) == [seq |-> r.seq, coding |-> r.coding, orfStart |-> r.orfStart, orfEnd 
 (* Sec-truncated digestion products of the unmodified transcripts                          *)
 RefSect == UNION {HapSect(TxOf(C.txs[k]), {}, [C.a EXCEPT !.sect = TRUE]) : k \in 1..Len(C.txs)}
 
+(* W>F images of the digestion products of the unmodified transcripts                     *)
+RefW2F == UNION {W2FAll(RefPeptides(TxOf(C.txs[k]), C.a), C.a) : k \in 1..Len(C.txs)}
+
 Verdict ==
-  IF C.kind = "restrict"
+  IF C.kind = "same"
+  THEN (Seqs(C.outA) = Seqs(C.outB) \/ PrintT(<<"V", i, "differs", (Seqs(C.outA) \ Seqs(C.outB)) \cup (Seqs(C.outB) \ Seqs(C.outA))>>))
+       /\ PrintT(<<"V", i, "done">>)
+  ELSE IF C.kind = "restrict"
   THEN (Seqs(C.outB) \subseteq Seqs(C.outA) \/ PrintT(<<"V", i, "restricted_not_subset", Seqs(C.outB) \ Seqs(C.outA)>>))
        /\ PrintT(<<"V", i, "done">>)
   ELSE LET lost == Seqs(C.outA) \ Seqs(C.outB)
            extra == Seqs(C.outB) \ Seqs(C.outA)
            unexplained == {p \in extra : ~Attributable(p)}
-       IN /\ (lost = {} \/ PrintT(<<"V", i, IF C.kind = "sect" /\ lost \subseteq RefSect THEN "lost_sect_reference" ELSE "lost", lost>>))
+       IN /\ (lost = {} \/ PrintT(<<"V", i, IF C.kind = "sect" /\ lost \subseteq RefSect THEN "lost_sect_reference"
+                                                      ELSE IF C.kind = "w2f" /\ lost \subseteq RefW2F THEN "lost_w2f_reference" ELSE "lost", lost>>))
           /\ (unexplained = {} \/ PrintT(<<"V", i, "unattributable", unexplained>>))
           /\ PrintT(<<"V", i, "done">>)
 =============================================================================
